@@ -123,3 +123,24 @@ Proof. intros. apply last_last. Qed.
 
 Lemma snoc_decomp : forall {A} (p : list A) d, p <> [] -> p = removelast p ++ [last p d].
 Proof. intros. apply app_removelast_last; auto. Qed.
+
+(* a sum of non-negative terms of which at most one is non-zero is bounded by any bound
+   of the single terms *)
+Lemma qsum_at_most_one : forall {A} (f : A -> Qc) (l : list A) (B : Qc),
+  (0 <= B)%Qc ->
+  (forall a, In a l -> (0 <= f a)%Qc /\ (f a <= B)%Qc) ->
+  (forall a b, In a l -> In b l -> f a <> 0%Qc -> f b <> 0%Qc -> a = b) ->
+  NoDup l ->
+  (0 <= qsum (map f l))%Qc /\ (qsum (map f l) <= B)%Qc.
+Proof.
+  induction l as [|a l]; intros B B0 Bd U ND.
+  - cbn [map]. rewrite qsum_nil. split; auto using qle_00.
+  - cbn [map]. rewrite qsum_cons. inversion ND; subst.
+    destruct (Qc_eq_dec (f a) 0%Qc) as [Z|NZ].
+    + rewrite Z. replace (0 + qsum (map f l))%Qc with (qsum (map f l)) by ring.
+      apply IHl; auto with datatypes.
+    + assert (ZR : qsum (map f l) = 0%Qc).
+      { apply qsum_map_zero. intros x Hx. destruct (Qc_eq_dec (f x) 0%Qc) as [Zx|NZx]; auto.
+        exfalso. assert (a = x) by (apply U; auto with datatypes). subst. auto. }
+      rewrite ZR. replace (f a + 0)%Qc with (f a) by ring. apply Bd. auto with datatypes.
+Qed.
